@@ -10,7 +10,7 @@ Streams of C04 (byte strings in hex; a header map is `name=v1,v2;name=…`, a na
             (cred = Authorization value made from the backend URL's credentials, or -; upRepls = field=pat/to,…;…)
      out  = method scheme urlhost path rawpath opaque rawquery reqhost header contentLength body
             (body = nobody | same | differs)
-  c04.resp  status header announced trailer bodyLen bodySeed preHeader downRules flags
+  c04.resp  status header announced trailer bodyLen bodySeed preHeader downRules flags downRepls
      out  = status header trailers body
   c04.canon name        out = canonical MIME header key
   c04.shp   hostport    out = host,port | -
@@ -203,21 +203,22 @@ structure RespCase where
   res : Response
   pre : Hdr
   down : Rules
+  dr : Repls
 
 def parseResp : List String → Option RespCase
-  | [st, hdr, ann, tr, _blen, _bseed, pre, rules, _flags] => do
+  | [st, hdr, ann, tr, _blen, _bseed, pre, rules, _flags, repls] => do
     pure { res := { status := ← st.toNat?, header := ← parseHdr hdr, announced := ← parseHexList ann,
                     trailer := ← parseHdr tr },
-           pre := ← parseHdr pre, down := ← parseHdr rules }
+           pre := ← parseHdr pre, down := ← parseHdr rules, dr := ← parseRepls repls }
   | _ => none
 
 def respModel (f : List String) : String :=
   match parseResp f with
   | none => "bad-case"
   | some c =>
-    if !nonInterfering c.down then "bad-case:interfering rules"
+    if !nonInterfering c.down || !replsDistinct c.dr then "bad-case:interfering rules"
     else
-      let v := respond hopList skipList (mkRepl [] []) c.down c.pre c.res
+      let v := respond hopList skipList (mkRepl [] []) c.down c.dr c.pre c.res
       "\t".intercalate [toString v.status, showHdr v.header, showHdr (clientTrailers v), "same"]
 
 def respJudge (f : List String) (out : String) : String :=
@@ -226,7 +227,7 @@ def respJudge (f : List String) (out : String) : String :=
     match st.toNat?, parseHdr hdr, parseHdr tr with
     | some st, some hdr, some tr =>
       if body != "same" then "bad:body:changed"
-      else verdictResp specHop specSkip (mkRepl [] []) c.down c.pre c.res st hdr tr
+      else verdictResp specHop specSkip (mkRepl [] []) c.down c.dr c.pre c.res st hdr tr
     | _, _, _ => "bad:unparsable:" ++ out
   | _, _ => "bad:unparsable:" ++ out
 
